@@ -558,4 +558,12 @@ def _replay_file(path: str) -> int:
 
 
 if __name__ == "__main__":
-    sys.exit(main())
+    try:
+        rc = main()
+    except SystemExit:
+        raise
+    except BaseException as e:  # a crash of the checker is never a verdict (exit 1 is reserved for violations)
+        traceback.print_exc()
+        print(f"CHECKER-ERROR checker crashed: {type(e).__name__}: {e}")
+        rc = 3
+    sys.exit(rc)
